@@ -25,7 +25,7 @@ static std::string levelClass(const Lim& l, long v) { long a = std::labs(v), b =
 static bool within(const Lim& l, long v) { return std::labs(v) <= std::labs(l.L); }
 
 // applies one (dimension, value) to the object under construction; returns false if not constructible
-struct Build { C3D c; long nPoints = 1, nChans = 0, nFrames = 1, wantBlocks = 0; };
+struct Build { C3D c; long nPoints = 1, nChans = 0, nFrames = 1, wantBlocks = 0; std::string c10; };
 static void applyLimit(Build& b, const std::string& dim, long v) {
     if (dim == "param_description") { Param p("DESCR", std::string((size_t)v, 'x')); p.set(3); b.c.parameter("LIMITS", p); }
     else if (dim == "param_name") { Param p(std::string((size_t)v, 'N')); p.set(4); b.c.parameter("LIMITS", p); }
@@ -51,9 +51,13 @@ static size_t paramBlocksOf(const C3D& c, const std::string& dir) {
     return (bytes.size() - 512 - data) / 512;
 }
 static std::string finishAndCheck(Build& b, const std::string& dir, std::string& detail) {
-    // declare points / channels, rates, frames
-    for (long i = 0; i < b.nPoints; ++i) b.c.point("P" + std::to_string(i));
-    for (long i = 0; i < b.nChans; ++i) b.c.analog("c" + std::to_string(i));
+    // declare points / channels, rates, frames. A refused declaration must leave the object as it was (C10 at the limits).
+    auto guardedCall = [&](const std::function<void()>& call, const std::string& what) {
+        std::string before; dumpObject(before, snapObject(b.c));
+        try { call(); } catch (...) { std::string after; dumpObject(after, snapObject(b.c)); if (after != before) b.c10 += (b.c10.empty() ? "" : "; ") + what; throw; }
+    };
+    for (long i = 0; i < b.nPoints; ++i) guardedCall([&] { b.c.point("P" + std::to_string(i)); }, "point(name) #" + std::to_string(i));
+    for (long i = 0; i < b.nChans; ++i) guardedCall([&] { b.c.analog("c" + std::to_string(i)); }, "analog(name) #" + std::to_string(i));
     if (b.nPoints) b.c.parameter("POINT", mkRate(100.f)); if (b.nChans) b.c.parameter("ANALOG", mkRate(100.f));
     Shape sh; for (long i = 0; i < b.nPoints; ++i) sh.pts.push_back("P" + std::to_string(i)); for (long i = 0; i < b.nChans; ++i) sh.chans.push_back("c" + std::to_string(i)); sh.nsub = b.nChans ? 1 : 0;
     Frame f0 = buildFrame(sh, 0), f1 = buildFrame(sh, 1);
@@ -101,8 +105,10 @@ static int runC17(const std::string& tier, const std::string& scratch, const std
             for (size_t i = (size_t)wi; i < cases.size(); i += (size_t)workers) {
                 fprintf(fo, "%zu\tSTART\t\n", i); fflush(fo);
                 std::string detail, outc;
-                Outcome oc = guarded([&] { Build b; for (auto& p2 : cases[i].parts) applyLimit(b, L[(size_t)p2.first].dim, p2.second); outc = finishAndCheck(b, dir, detail); }, &detail);
+                std::string c10;
+                Outcome oc = guarded([&] { Build b; try { for (auto& p2 : cases[i].parts) applyLimit(b, L[(size_t)p2.first].dim, p2.second); outc = finishAndCheck(b, dir, detail); } catch (...) { c10 = b.c10; throw; } c10 = b.c10; }, &detail);
                 if (oc != OK) outc = std::string("build_throws:") + outcomeName(oc);
+                if (!c10.empty()) { fprintf(fo, "%zu\tC10\t%s\n", i, c10.c_str()); fflush(fo); }
                 for (auto& ch : detail) if (ch == '\t' || ch == '\n') ch = ' ';
                 fprintf(fo, "%zu\t%s\t%s\n", i, outc.c_str(), detail.substr(0, 300).c_str()); fflush(fo);
             }
@@ -128,6 +134,7 @@ static int runC17(const std::string& tier, const std::string& scratch, const std
             size_t a = line.find('\t'), b = line.find('\t', a + 1); if (a == std::string::npos || b == std::string::npos) continue;
             size_t i = (size_t)strtoull(line.c_str(), nullptr, 10); std::string outc = line.substr(a + 1, b - a - 1);
             if (outc == "START") { started = (long)i; continue; }
+            if (outc == "C10") { std::string sig = "C10|changed_on_throw/at-capacity-limit/" + L[(size_t)cases[i].parts[0].first].dim; auto it = viol.find(sig); if (it == viol.end()) viol[sig] = {sig, caseText(cases[i], L), "a refused declaration left the object changed: " + line.substr(b + 1), 1, false, i}; else it->second.count++; continue; }
             started = -1; handle(i, outc, line.substr(b + 1));
         }
         if (started >= 0) handle((size_t)started, std::string("crash:") + (WIFSIGNALED(status[(size_t)wi]) ? "signal_" + std::to_string(WTERMSIG(status[(size_t)wi])) : "exit"), "worker died while building / saving / reloading this case");
